@@ -9,7 +9,8 @@ LEVEL_TEXT = (
     "carries header.cas taken from the record that was read, or a single atomic trait operation), has a window in "
     "every schedule that puts a conflicting command between the two calls. R1 enumerates these pairs per command by "
     "abstract interpretation of every MemcStore command (public entry point, helpers inlined). Today's eight pairs (add, replace, append, prepend, incr/decr on hit and on miss) are genuine and recorded as known findings; "
-    "any other pair (a new command, or set/get/delete becoming composite) is a violation. Not decided: the "
+    "any other pair (a new command, or set/get/delete becoming composite) is a violation; so is the converse shape, a "
+    "command whose answer depends on a read made after its own write. Not decided: the "
     "quantitative statements (N*d, distinct return values)."
 )
 ASSUMPTIONS = [
@@ -64,6 +65,7 @@ def r1(ctx):
     commands = [b for b in methods if b.path not in called or (b.j.get("vis") or "") == "Public"]
     rep.check(len(commands) >= 10, "commands", "%d commands (entry points of MemcStore)" % len(commands), "only %d MemcStore entry points found (10 confirmed: set get add replace append prepend increment decrement delete flush)" % len(commands))
     pairs = {}
+    rereads = {}
     clean = set()
     for b in commands:
         rep.analysed(b)
@@ -102,6 +104,24 @@ def r1(ctx):
                     owner = b.path
                     k = "%s:%s(%s)->%s" % (owner.replace("memcrs::memcache::store::", ""), rn, "hit" if hit == 0 else ("miss" if hit == 1 else "?"), wn)
                     pairs.setdefault(k, (owner, W))
+            # the converse shape: a read of the key made *after* the command's own write, on which the answer (or anything
+            # the command does next) depends — a conflicting command between the two makes the answer contradict the effect
+            for j, R in enumerate(evs):
+                rn = R.name.split("::")[-1]
+                if rn not in ("get", "get_by_key", "len", "is_empty"):
+                    continue
+                for W in evs[:j]:
+                    wn = W.name.split("::")[-1]
+                    if wn not in ("set", "delete", "remove", "remove_if"):
+                        continue
+                    if len(R.args) > 1 and len(W.args) > 1 and tform(R.args[1]) != tform(W.args[1]):
+                        continue
+                    rres = R.result
+                    ri = p.events.index(R)
+                    dep = any(at > ri and rres in atoms(c) for c, _t, _s, at in p.state.pc) or rres in atoms(p.ret)
+                    if dep:
+                        k = "%s:%s->%s:answer-from-reread" % (b.path.replace("memcrs::memcache::store::", ""), wn, rn)
+                        rereads.setdefault(k, (b.path, R))
         clean.add(b.path)
     owners = set(o for o, _ in pairs.values())
     for b in commands:
@@ -109,6 +129,11 @@ def r1(ctx):
             rep.ok(b.path.replace("memcrs::memcache::store::", "") + ":no-pair", "no dependent read->write pair sequenced by this method", b.loc())
     for k, (owner, W) in sorted(pairs.items()):
         rep.bad(k, "read-modify-write is not atomic: Cache::get and a dependent Cache::%s on the same key with nothing tying the write to what was read (no CAS from the read record, no atomic update primitive): two concurrent commands interleave between the two calls" % k.split("->")[-1], f.bodies[owner].loc())
+    for b in commands:
+        if not any(o == b.path for o, _ in rereads.values()):
+            rep.ok(b.path.replace("memcrs::memcache::store::", "") + ":no-reread", "the command's answer does not depend on a read made after its own write", b.loc())
+    for k, (owner, R) in sorted(rereads.items()):
+        rep.bad(k, "the command writes the key and then answers according to a separate, later read of it: a conflicting command between the two calls makes the answer contradict the effect that took place (the write happened, the client is told it did not — or the reverse)", f.bodies[owner].loc())
     return rep
 
 
